@@ -1,9 +1,9 @@
-// counterexamples for harness c14::c14_vcut_open_extreme_left_e1 (property C14); replay: ./check C14 --replay <this file>
-// features: c14
+// counterexamples for harness c14::c14_vcut_open_extreme_right_e0 (property C14); replay: ./check C14 --replay <this file>
+// features: c14,thorough
 #![allow(unused_imports)]
 use crate::c14::*;
 
-/// Test generated for harness `c14::c14_vcut_open_extreme_left_e1` 
+/// Test generated for harness `c14::c14_vcut_open_extreme_right_e0` 
 ///
 /// Check for `cover`: "label count does not match the edges"
 ///
@@ -19,14 +19,12 @@ use crate::c14::*;
 /// logic.
 
 #[test]
-fn kani_concrete_playback_c14_vcut_open_extreme_left_e1_1189972190656108644() {
+fn kani_concrete_playback_c14_vcut_open_extreme_right_e0_5139454805984080389() {
     let concrete_vals: Vec<Vec<u8>> = vec![
-        // 2147483645
-        vec![253, 255, 255, 127],
         // 1
         vec![1],
-        // 2147483647
-        vec![255, 255, 255, 127],
+        // -2147483648
+        vec![0, 0, 0, 128],
     ];
-    kani::concrete_playback_run(concrete_vals, c14_vcut_open_extreme_left_e1);
+    kani::concrete_playback_run(concrete_vals, c14_vcut_open_extreme_right_e0);
 }
